@@ -65,8 +65,7 @@ class FakeIO:
 
     def __init__(self, rig, direction):
         self.rig = rig
-        self.tid = rig.next_tid
-        rig.next_tid += 1
+        self.tid = 0  # numbered when the TCP connection exists (connect succeeded / accepted)
         self.direction = direction
         self.rx = bytearray()
         self.labels = []  # [remaining bytes, event name, arg] for each injected message
@@ -76,7 +75,11 @@ class FakeIO:
         self.waiter = None
         self.connect_fut = None
         self.hung_reads = 0
-        rig.ios[self.tid] = self
+
+    def connected(self):
+        self.tid = self.rig.next_tid
+        self.rig.next_tid += 1
+        self.rig.ios[self.tid] = self
 
     # socket API used by exabgp
     def fileno(self):
@@ -85,7 +88,12 @@ class FakeIO:
     def close(self):
         if not self.closed:
             self.closed = True
+            if not self.tid:
+                return  # a socket that never connected
             self.rig.log.append(['close', self.tid, 'gc' if self.rig.in_gc else 'close'])
+            if self.waiter is not None and not self.waiter.done():
+                # the pending read is never completed (see VLoop.sock_recv_into)
+                self.rig.hung.add(self.tid)
 
     def setblocking(self, flag):
         pass
@@ -111,7 +119,11 @@ class FakeIO:
 
     def feed(self, data, name, arg=None):
         self.rx += data
-        self.labels.append([len(data), name, arg])
+        # a header error is detected once the 19 header octets are read: the event is logged there
+        n = 19 if str(arg).startswith('Header') else len(data)
+        self.labels.append([n, name, arg])
+        if len(data) > n:
+            self.labels.append([len(data) - n, None, None])
         self.wake()
 
 
@@ -154,7 +166,8 @@ class VLoop(asyncio.SelectorEventLoop):
                     left -= take
                     if io.labels[0][0] == 0:
                         _, name, arg = io.labels.pop(0)
-                        rig.log.append(['ev', name, arg])
+                        if name is not None:
+                            rig.log.append(['ev', name, arg])
                 return n
             if io.err:
                 rig.log.append(['ev', 'SockErr', None])
@@ -178,6 +191,7 @@ class VLoop(asyncio.SelectorEventLoop):
         rig.connecting = io
         try:
             await io.connect_fut
+            io.connected()
         finally:
             if rig.connecting is io:
                 rig.connecting = None
@@ -268,7 +282,7 @@ class Rig:
         self.in_gc = False
         self.connect_mode = 'wait'
         self.connecting = None
-        self.sup_ka = 0
+        self.end = None
         getenv().bgp.openwait = OPENWAIT
         getenv().bgp.passive = False
         getenv().tcp.attempts = 0
@@ -357,6 +371,18 @@ class Rig:
 
         patch(protomod.Protocol, 'new_update_generator', new_update_generator)
 
+        import exabgp.reactor.network.connection as connmod
+
+        def __del__(conn):
+            # a Connection dropped without close() is closed by its finaliser: recorded as how='gc'
+            was, rig.in_gc = rig.in_gc, True
+            try:
+                conn.close()
+            finally:
+                rig.in_gc = was
+
+        patch(connmod.Connection, '__del__', __del__)
+
         real_check_ka = timermod.ReceiveTimer.check_ka
 
         def check_ka(timer, message=None, *a):
@@ -436,6 +462,7 @@ class Rig:
         from exabgp.protocol.family import AFI
 
         io = FakeIO(self, 'incoming')
+        io.connected()
         conn = Incoming(AFI.ipv4, '127.0.0.2', '127.0.0.1', io)
         conn.writing = lambda: True  # the kernel poll of the generator writer
         self.log.append(['ev', 'Incoming', None])
@@ -481,3 +508,192 @@ def open_bytes(asn=65001, hold=HOLD, rid='10.0.0.9', version=4, caps=True):
         capa[Capability.CODE.FOUR_BYTES_ASN] = ASN4(asn)
     o = Open.make_open(Version(version), ASN(asn), HoldTime(hold), RouterID(rid), capa)
     return o.pack_message(Negotiated.make_negotiated(Neighbor.EMPTY, Direction.IN))
+
+
+def attr(flag, code, val):
+    if flag & 0x10:
+        return bytes([flag, code]) + struct.pack('!H', len(val)) + val
+    return bytes([flag, code, len(val)]) + val
+
+
+def update_bytes(attrs, nlri=b'\x18\x0a\x09\x00', wd=b''):
+    a = b''.join(attrs)
+    return msg(2, struct.pack('!H', len(wd)) + wd + struct.pack('!H', len(a)) + a + nlri)
+
+
+ORIGIN = attr(0x40, 1, b'\x00')
+ASPATH = attr(0x40, 2, b'\x02\x01' + struct.pack('!I', 65001))  # AS_SEQUENCE [65001], 4-byte (ASN4 negotiated)
+NEXTHOP = attr(0x40, 3, bytes([192, 0, 2, 1]))
+
+
+def wire(kind):
+    """concrete bytes of the remote speaker for an abstract message kind -> (bytes, event name, event arg)
+    The expected (code, subcode) of the error kinds is what RFC 4271 s6 / RFC 6608 / RFC 7313 say for the class;
+    it is NOT read from the implementation."""
+    k = kind
+    if k == 'OpenOk':
+        return open_bytes()
+    if k == 'OpenBadVersion':  # 2/1
+        b = bytearray(open_bytes())
+        b[19] = 3
+        return bytes(b)
+    if k == 'OpenBadAs':  # 2/2
+        return open_bytes(asn=65009)
+    if k == 'OpenBadId':  # 2/3
+        return open_bytes(rid='0.0.0.0')
+    if k == 'OpenBadHold':  # 2/6
+        b = bytearray(open_bytes())
+        b[22:24] = struct.pack('!H', 1)
+        return bytes(b)
+    if k == 'OpenBadParam':  # 2/4 unsupported optional parameter (type 9)
+        b = bytearray(open_bytes(caps=False))
+        body = bytes(b[19:28]) + bytes([4, 9, 2, 0, 0])
+        return msg(1, body)
+    if k == 'Keepalive':
+        return msg(4)
+    if k == 'UpdateOk':
+        return update_bytes([ORIGIN, ASPATH, NEXTHOP])
+    if k == 'Eor':
+        return msg(2, b'\x00\x00\x00\x00')
+    if k == 'UpdateBadAttrLen':  # 3/1 total attribute length overruns the message
+        return msg(2, b'\x00\x00\x00\x40' + ORIGIN)
+    if k == 'UpdateBadWdLen':  # 3/1 withdrawn length overruns the message
+        return msg(2, b'\x00\x30\x00\x00')
+    if k == 'UpdateBadOriginFlag':  # 3/4 attribute flags error on ORIGIN (optional bit set)
+        return update_bytes([attr(0xC0, 1, b'\x00'), ASPATH, NEXTHOP])
+    if k == 'UpdateBadOriginLen':  # 3/5 attribute length error
+        return update_bytes([attr(0x40, 1, b'\x00\x00'), ASPATH, NEXTHOP])
+    if k == 'UpdateBadOriginVal':  # 3/6 invalid ORIGIN
+        return update_bytes([attr(0x40, 1, b'\x07'), ASPATH, NEXTHOP])
+    if k == 'UpdateMissing':  # 3/3 missing well-known (no NEXT_HOP)
+        return update_bytes([ORIGIN, ASPATH])
+    if k == 'UpdateBadNlri':  # 3/10 invalid network field (prefix length 33)
+        return update_bytes([ORIGIN, ASPATH, NEXTHOP], nlri=b'\x21\x0a\x09\x00\x00\x00')
+    if k == 'UpdateBadAsPath':  # 3/11 malformed AS_PATH (segment length overruns)
+        return update_bytes([ORIGIN, attr(0x40, 2, b'\x02\x05' + struct.pack('!I', 65001)), NEXTHOP])
+    if k == 'Notification':
+        return msg(3, b'\x06\x02')
+    if k == 'NotificationShort':  # a NOTIFICATION without subcode octet passes no length check (min 21)
+        return msg(3, b'\x06\x04admin')
+    if k == 'Refresh':
+        return msg(5, b'\x00\x01\x00\x01')
+    if k == 'RefreshBadSubtype':
+        return msg(5, b'\x00\x01\x07\x01')
+    if k == 'Operational':
+        return msg(6, b'\xff\xfe\x00\x02\x01\x02')  # a well-formed OPERATIONAL of an unassigned type
+    if k == 'UnknownType':
+        return msg(77)
+    if k == 'HeaderBadMarker':  # 1/1
+        return b'\x00' * 16 + struct.pack('!HB', 19, 4)
+    if k == 'HeaderShortLen':  # 1/2
+        return MARKER + struct.pack('!HB', 18, 4)
+    if k == 'HeaderLongLen':  # 1/2
+        return MARKER + struct.pack('!HB', 4097, 2)
+    if k == 'HeaderKaLen':  # 1/2 KEEPALIVE must be exactly 19
+        return MARKER + struct.pack('!HB', 20, 4) + b'\x00'
+    raise KeyError(kind)
+
+
+def run_script(steps, conf=CONF, gap=0.5, trace_exc=False):
+    """steps: list of [what, arg]; what in
+         'tick'            let time pass until the peer starts a new attempt (bounded) or `arg` seconds
+         'connect_ok' / 'connect_fail'
+         'incoming'        arg = remote router-id relation is irrelevant here (only OPENCONFIRM compares ids)
+         'recv'            arg = message kind (bytes on the transport currently owned by the peer)
+         'eof' / 'sockerr'
+         'silence'         arg = seconds
+         'teardown'        arg = code
+         'reestablish' / 'reconfigure' / 'remove' / 'shutdown'
+         'refresh'         queue a ROUTE-REFRESH (what the API command does)
+         'upfail'          Processes.up raises ProcessError from now on
+    -> dict(log=[...], final_fsm, hung=[tids], skipped=[indices of steps that had no transport/connect to act on])"""
+    rig = Rig(conf)
+    skipped = []
+    exc = []
+
+    async def wait_connecting():
+        # the peer starts its attempt after its restart delay (0.1 s + back-off, at most about 60 s)
+        for _ in range(700):
+            if rig.connecting is not None or rig.task.done():
+                return
+            await asyncio.sleep(0.1)
+
+    async def main():
+        rig.start()
+        await asyncio.sleep(0)
+        for i, (what, arg) in enumerate(steps):
+            if what == 'tick':
+                await asyncio.sleep(arg if arg else gap)
+            elif what == 'connect_ok':
+                await wait_connecting()
+                if not rig.connect_ok():
+                    skipped.append(i)
+            elif what == 'connect_fail':
+                await wait_connecting()
+                if not rig.connect_fail():
+                    skipped.append(i)
+                await asyncio.sleep(6.0)  # 50 attempts, 0.1 s apart
+                rig.connect_mode = 'wait'
+            elif what == 'incoming':
+                rig.incoming()
+            elif what in ('recv', 'eof', 'sockerr'):
+                io = rig.cur_io()
+                if io is None or io.closed:
+                    skipped.append(i)
+                elif what == 'recv':
+                    io.feed(wire(arg), 'Recv', arg)
+                elif what == 'eof':
+                    io.eof = True
+                    io.wake()
+                else:
+                    io.err = True
+                    io.wake()
+            elif what == 'silence':
+                await asyncio.sleep(arg)
+            elif what == 'teardown':
+                rig.log.append(['ev', 'Teardown', arg])
+                rig.reactor.teardown_peer(rig.key, arg)
+            elif what == 'reestablish':
+                rig.log.append(['ev', 'Reestablish', None])
+                rig.peer.reestablish()
+            elif what == 'reconfigure':
+                rig.log.append(['ev', 'Reconfigure', None])
+                rig.peer.reconfigure()
+            elif what == 'remove':
+                rig.log.append(['ev', 'Remove', None])
+                rig.peer.remove()
+            elif what == 'shutdown':
+                rig.log.append(['ev', 'Shutdown', None])
+                rig.peer.shutdown()
+            elif what == 'refresh':
+                from exabgp.bgp.message.refresh import RouteRefresh
+                from exabgp.protocol.family import AFI, SAFI
+
+                rig.log.append(['ev', 'ApiRefresh', None])
+                rig.neighbor.refresh.append(RouteRefresh.make_route_refresh(AFI.ipv4, SAFI.unicast))
+            elif what == 'upfail':
+                rig.log.append(['ev', 'ProcessBroken', None])
+                rig.proc.fail_up = True
+            else:
+                raise ValueError(what)
+            await asyncio.sleep(gap)
+            rig.collect()
+        await asyncio.sleep(gap)
+        rig.end = len(rig.log)
+
+    try:
+        try:
+            rig.loop.run_until_complete(main())
+        except Deadlock:
+            rig.log.append(['deadlock'])
+            rig.end = len(rig.log)
+        return {
+            'log': rig.log[: rig.end],
+            'final_fsm': rig.fsm(),
+            'hung': sorted(rig.hung),
+            'skipped': skipped,
+            'task_done': rig.task.done(),
+            'vt': rig.loop.time(),
+        }
+    finally:
+        rig.close()
